@@ -1,9 +1,14 @@
 package props
 
 import (
+	"math"
 	"strings"
 
 	"godsverif/core"
+
+	"github.com/emirpasic/gods/v2/maps/hashbidimap"
+	"github.com/emirpasic/gods/v2/maps/hashmap"
+	"github.com/emirpasic/gods/v2/sets/hashset"
 )
 
 // checkAgreement: the observers of the Container interface agree with each
@@ -41,14 +46,87 @@ func checkAgreement(c *core.Ctx, d *Dyn) {
 	c.State(core.Mix(core.HashString(d.Kind), uint64(sz)))
 }
 
+// runC15NaN: hash containers whose float keys include NaN (a key that is not
+// equal to itself, so it can be neither found nor deleted one by one). Size,
+// Empty, Values and Clear must still agree; only lengths are compared.
+func runC15NaN(c *core.Ctx) {
+	nan := math.NaN()
+	type cont interface {
+		Size() int
+		Empty() bool
+		Clear()
+		String() string
+	}
+	check := func(name string, x cont, lenValues func() int, want int) {
+		if x.Size() != want || x.Empty() != (want == 0) || lenValues() != want {
+			c.Fail("agreement", "nan-keys", "%s holding %d elements, some of them NaN: Size() = %d, Empty() = %v, len(Values()) = %d", name, want, x.Size(), x.Empty(), lenValues())
+		}
+		c.Count("obs:agreement-with-NaN-keys", 1)
+	}
+	hs := hashset.New[float64]()
+	c.Begin("HashSet", "Add", "1.5, NaN, NaN, 2.5")
+	hs.Add(1.5, nan, nan, 2.5) // every NaN is a member of its own
+	check("HashSet", hs, func() int { return len(hs.Values()) }, 4)
+	c.Begin("HashSet", "Clear")
+	hs.Clear()
+	check("HashSet", hs, func() int { return len(hs.Values()) }, 0)
+	hs.Add(3.5)
+	check("HashSet", hs, func() int { return len(hs.Values()) }, 1)
+
+	hm := hashmap.New[float64, int]()
+	c.Begin("HashMap", "Put", "NaN twice, 1.5")
+	hm.Put(nan, 1)
+	hm.Put(nan, 2)
+	hm.Put(1.5, 3)
+	check("HashMap", hm, func() int { return len(hm.Values()) }, 3)
+	if len(hm.Keys()) != 3 {
+		c.Fail("agreement", "nan-keys", "HashMap holding 3 entries (two NaN keys): len(Keys()) = %d", len(hm.Keys()))
+	}
+	c.Begin("HashMap", "Clear")
+	hm.Clear()
+	check("HashMap", hm, func() int { return len(hm.Values()) }, 0)
+
+	hb := hashbidimap.New[float64, int]()
+	c.Begin("HashBidiMap", "Put", "NaN, 1.5")
+	hb.Put(nan, 1)
+	hb.Put(1.5, 2)
+	check("HashBidiMap", hb, func() int { return len(hb.Values()) }, 2)
+	c.Begin("HashBidiMap", "Clear")
+	hb.Clear()
+	check("HashBidiMap", hb, func() int { return len(hb.Values()) }, 0)
+	c.Nontrivial()
+}
+
 func runC15(c *core.Ctx) {
 	r := c.R
+	if c.Index < hugeCases {
+		// agreement at a scale where fixed-size scratch space gives out
+		c.Only = func(kind string) bool { return kind == "size" || kind == "empty" || kind == "keys" }
+		runHugeTree(c, c.Index, hugeN(c.Tier), func(m *KVMon[int, int]) {})
+		return
+	}
+	if c.Index%997 == 500 {
+		runC15NaN(c)
+		return
+	}
 	kind := dynKinds[c.Index%len(dynKinds)]
 	d := newDynRandom(c, kind, false)
 	checkAgreement(c, d)
 	steps := r.Range(5, 80)
 	for s := 0; s < steps; s++ {
-		d.Mutate(c)
+		if r.Intn(12) == 0 {
+			// loading is a mutation like any other (and one more path on which a
+			// cached size or cached view has to be invalidated)
+			o := d.Fresh()
+			o.build(c, r.Range(0, 12))
+			if data, err := o.JSON.ToJSON(); err == nil {
+				c.Begin(kind, "FromJSON", string(data))
+				d.JSON.FromJSON(data)
+				c.Count("obs:loads-inside-histories", 1)
+			}
+		} else {
+			d.Mutate(c)
+		}
 		checkAgreement(c, d)
 	}
 	// Clear at this (random) point of the history, then run in lockstep with
